@@ -26,7 +26,7 @@ ASSUMPTIONS = ['for U/u the complement table may give A or - (the statement does
 REQUIRED = {t: ['cells:IUPAC', 'cells:RC', 'cells:AMBIG', 'cells:PROB', 'laws_checked', 'orderings_through_build',
                 'codes_through_map_reverse_strand', 'codes_through_map_inverted_repeat', 'miri_dump_identical',
                 'weights_through_distance', 'dist_pairs_with_identical_ambiguous_codes', 'orderings_with_self_complementary_arms',
-                'mask_flags_through_map_128bit', 'mask_flags_through_map_64bit', 'weights_through_distance_with_min_freq', 'junction_sightings_through_build'] for t in ('quick', 'thorough')}
+                'mask_flags_through_map_128bit', 'mask_flags_through_map_64bit', 'weights_through_distance_with_min_freq', 'junction_sightings_through_build', 'orderings_over_two_files_of_a_sample', 'codes_through_align_mask'] for t in ('quick', 'thorough')}
 LETTERS = [c for c in M.CODES] + [c.lower() for c in M.CODES]
 
 
@@ -252,7 +252,17 @@ def run_case(desc, ctx):
                             w = M.rc(w)
                         recs.append(w + 'N')
                     G.write_fa(ctx.path('o.fa'), recs)
-                    p = G.ska_build(ctx, ctx.path('o'), [ctx.path('o.fa')], k, rcmode)
+                    if len(recs) >= 2 and rng.random() < 0.35:
+                        # the sightings spread over the two files of one sample (name, file 1, file 2): the code is that of the
+                        # union over both files, whichever file brings which bases
+                        cut_ = rng.randint(1, len(recs) - 1)
+                        G.write_fa(ctx.path('o1.fa'), recs[:cut_])
+                        G.write_fa(ctx.path('o2.fa'), recs[cut_:])
+                        lst_ = ctx.write('o.list', 'o\t%s\t%s\n' % (ctx.path('o1.fa'), ctx.path('o2.fa')))
+                        p = G.ska_build(ctx, ctx.path('o'), ['-f', lst_], k, rcmode)
+                        res.count('orderings_over_two_files_of_a_sample')
+                    else:
+                        p = G.ska_build(ctx, ctx.path('o'), [ctx.path('o.fa')], k, rcmode)
                     res.evals += 1
                     if p.returncode != 0:
                         res.violate('C15:build-failed', 'build failed: %s' % p.stderr[-150:], {'records': recs})
@@ -267,6 +277,26 @@ def run_case(desc, ctx):
                     else:
                         res.count('orderings_through_build')
                         res.nontrivial.append(fingerprint([k, rcmode, order]))
+        if not selfcomp:
+            # one file of the sample holds a single base, the other all four (and the other way round)
+            for b1 in 'ACGT':
+                for first_single in (True, False):
+                    one = [arms[:h] + b1 + arms[h:] + 'N']
+                    four = [arms[:h] + x + arms[h:] + 'N' for x in rng.sample('ACGT', 4)]
+                    G.write_fa(ctx.path('t1.fa'), one if first_single else four)
+                    G.write_fa(ctx.path('t2.fa'), four if first_single else one)
+                    lst_ = ctx.write('t.list', 'o\t%s\t%s\n' % (ctx.path('t1.fa'), ctx.path('t2.fa')))
+                    p = G.ska_build(ctx, ctx.path('t'), ['-f', lst_], k, rcmode)
+                    res.evals += 1
+                    try:
+                        _ht, Tt = G.nk(ctx, ctx.path('t.skf')) if p.returncode == 0 else (None, None)
+                    except (G.NkFailed, ValueError):
+                        Tt = None
+                    if Tt != {arms: ['N']}:
+                        res.violate('C15:two-files:%s' % b1, 'k=%d rc=%s: %s in one file and all four bases in the other file of the same sample give %s, expected N'
+                                    % (k, rcmode, b1, Tt), {'arms': arms, 'first_file_single': first_single})
+                    else:
+                        res.count('orderings_over_two_files_of_a_sample')
         return res
     if kind == 'junction':
         # two sightings of one split k-mer in CONSECUTIVE windows of one record: the junction of two runs b^(h+1) c^(h+1) holds the
@@ -313,6 +343,21 @@ def run_case(desc, ctx):
         if T != rows:
             res.count('table_readout_mismatch(C01)')
             return res
+        # "counts as ambiguous" at the point of use: --ambig-mask (with no other filter) turns exactly the ambiguity codes into N
+        pa0 = ctx.sh(ctx.ska, 'align', ctx.path('d.skf'), '--filter', 'no-filter', '--min-freq', '0')
+        pa1 = ctx.sh(ctx.ska, 'align', ctx.path('d.skf'), '--filter', 'no-filter', '--min-freq', '0', '--ambig-mask')
+        res.evals += 1
+        if pa0.returncode == 0 and pa1.returncode == 0:
+            n0_, s0_ = M.parse_fasta(pa0.stdout)
+            n1_, s1_ = M.parse_fasta(pa1.stdout)
+            want_ = sorted(''.join('N' if M.is_ambig(ch) else ch for ch in col) for col in M.columns(s0_))
+            if sorted(M.columns(s1_)) != want_ or sorted(M.columns(s0_)) != sorted(''.join(r) for r in rows.values()):
+                res.violate('C15:align-mask', 'k=%d ns=%d: `ska align --filter no-filter --min-freq 0 --ambig-mask` is not the unmasked alignment with exactly the ambiguity codes turned into N'
+                            % (k, ns), {'rows': rows, 'masked': pa1.stdout[:600]})
+            else:
+                res.count('codes_through_align_mask', sum(1 for r in rows.values() for x in r if M.is_ambig(x)))
+        else:
+            res.violate('C15:align-mask-failed', 'align failed: %s' % (pa0.stderr + pa1.stderr)[-160:], {'rows': rows})
         thr = rng.choice([1, 2, 4])
         # with a frequency threshold as well: rows present (any symbol counts) in fewer than ceil(f*n) samples drop out, the codes
         # of the others keep their weights
